@@ -16,7 +16,7 @@ def register(claim):
           "Decides necessary conditions of faithful-or-rejected parsing for every domain text at once: on every acyclic path through each node "
           "handler the node is consumed or rejected; a stripped head is pinned or kept; (not ..) polarity and (in)equality routing; one arm per "
           "section storing into the matching field; length-guarded positional operands; accepted operators have evaluator entries; trailing typed-list "
-          "groups are flushed; operator-to-operator tables are the identity, complement or mirror (complement under not). It does not decide that the stored formula equals the written one.",
+          "groups are flushed; operator-to-operator tables are the identity, complement or mirror (complement under not). It does not decide that the stored formula equals the written one. Per class of input node (head token, small lengths, list / flat) the parser's guards are valuated and sink, rejection and recursive call sites are decided on the CFG (C01.forms.*); node loops are not left early; every Domain field parse_domain reads is set by the constructor.",
           TRUST + "Findings recorded as known (repeated arguments collapse in name-keyed signatures) are listed in known_findings.json.",
           "DESIGN.md 4/C01")
     claim("C02",
@@ -24,7 +24,7 @@ def register(claim):
           "Decides the structural clauses of 'applicable iff precondition true': operator tables, literal truth value over (polarity, membership), "
           "every operand class translated-and-attached or rejected, fold identity and per-arm folding, (in)equality semantics, subtype range of "
           "quantifiers, pass-through of Operator.is_applicable, argument positions of grounded fluent leaves. Truth of whole formulas in whole states is not decided. On the current tree the check "
-          "reports the known defect family that nested or / forall preconditions are ignored.",
+          "reports the known defect family that nested or / forall preconditions are ignored. A supported operand class is never refused, operand walks are not left early, class tests have the operand first, the instantiation map is stored where the quantified evaluation reads it, the state is read into every fluent leaf (C02.readstate / missing / branch).",
           TRUST + "Six known findings (KF2-KF4) are reported as KNOWN-FINDING.",
           "DESIGN.md 4/C02")
     claim("C03",
@@ -32,110 +32,110 @@ def register(claim):
           "Decides for all states and domains: an effect group fires iff its antecedents hold in the pre-state parameter; effects are applied to the "
           "copy that is returned; removals cannot follow insertions and are polarity-filtered; assign/increase/decrease compute v/old+v/old-v; numeric "
           "right-hand sides read the pre-state; the universal pass dominates the return and ranges by subtype (no conforming object skipped); every conditional group grounds its discrete and its numeric effects; classes kept in sets compare on condition and consequents; no operator-owned fluent object "
-          "escapes into the successor. The frame condition and full successor equality are not decided.",
+          "escapes into the successor. The frame condition and full successor equality are not decided. Effect groups are instantiated before they are read, no walk over groups / objects / effects is left early, absent problem objects are not dereferenced, the predicate map is read only for present keys and new sets are stored, numeric right-hand sides are evaluated in the pre-state when one is given.",
           TRUST, "DESIGN.md 4/C03")
     claim("C04",
           "def-use chains over the CFG (loop-carried state threading), finite guard valuation (refusal table), handler / wiring provenance",
           "Decides: the state handed to each step is the initial state or the previous triplet's next_state; exactly one triplet per plan line in "
           "plan order; apply raises exactly for (validate, inapplicable, not allowed); the exporter catches that error and rebuilds the successor "
-          "from the pre-state; the allow flag comes from the constructor (default False). Per-step successor correctness is C03.",
+          "from the pre-state; the allow flag comes from the constructor (default False). Per-step successor correctness is C03. The operator is grounded before its effect groups are walked under every flag valuation, no effect group is skipped by leaving the walk, the successor is bound on the path through the handler and labelled non-initial.",
           TRUST, "DESIGN.md 4/C04")
     claim("C05",
           "must-pass-through (dominators) on validator CFGs, no-silent-drop path enumeration, provenance of stored values, sibling idiom check",
           "Decides: every ground atom / fluent returned by the problem parser is dominated by an arity check, a per-argument subtype check and an "
           "object lookup (and a function-name check); unknown components and a foreign domain name raise; sections are routed to their fields; the "
-          "trailing untyped object group is kept and typed by the constant 'object'; values are float(third item) under the fluent's name. That stored content equals the text is not decided.",
+          "trailing untyped object group is kept and typed by the constant 'object'; values are float(third item) under the fluent's name. That stored content equals the text is not decided. Arity / length / head gates accept exactly the well-formed shapes (C05.gates), argument tokens and conjuncts come from the right slices (C05.positions), constructor arguments are paired with the right parameters, the object walk starts at 0 and advances by what it reads on every path, no memo outlives the domain.",
           TRUST + "assert-based checks vanish under python -O (noted in evidence).", "DESIGN.md 4/C05")
     claim("C06",
           "type-inference-driven lint (no ==/!= on PDDLType), registration / identity dataflow in parse_types, finite valuation of the ancestor walk",
           "Decides: conformance is always tested with is_sub_type in the right direction; every type built by parse_types is registered and never "
           "replaces a registered object (order independence hazards); the ancestor walk returns True only on name equality, False at the root and "
-          "otherwise recurses on the parent; 'object' is the root. Order independence of arbitrary re-implementations is not decided.",
+          "otherwise recurses on the parent; 'object' is the root. Order independence of arbitrary re-implementations is not decided. The typed-list walk consumes every token exactly once and is not left early, names and the separator keep their roles, every member of a group is linked, the root test keeps its polarity, the hierarchy graph has every type as a node and parent -> child edges.",
           TRUST, "DESIGN.md 4/C06")
     claim("C07",
           "interprocedural effect (mutation) summaries over access paths with ownership classification of fields; escape analysis",
           "Decides, independently of the call history (which is what the property quantifies over): no function outside the mutators-by-contract "
           "writes below a field that holds a constructor argument, below a parameter of a public entry point, or into a module-level object; no "
           "owner-mutated object is stored into a state handed to it; State.copy is deep down to the fact / fluent objects. With no library write to "
-          "shared objects the thread-interleaving clause follows. Mutation by user code through remaining aliases is not decided.",
-          TRUST + "262 obligations (237 entry points) on the current tree; default arguments that build objects count as shared; UNKNOWN-provenance writes are counted (0 today).", "DESIGN.md 4/C07")
+          "shared objects the thread-interleaving clause follows. Mutation by user code through remaining aliases is not decided. Grounded numeric leaves are fresh objects; numeric effects are evaluated on the pre-state when given.",
+          TRUST + "267 obligations (237 entry points) on the current tree; default arguments that build objects count as shared; UNKNOWN-provenance writes are counted (0 today).", "DESIGN.md 4/C07")
     claim("C08",
           "backward slicing for field coverage, abstract evaluation of string-building code into string shapes (polarity, typed lists, parenthesis balance, value text), keyword sets, provenance (order, options); public printers with helpers inlined",
           "Decides: each domain printer's text depends on every declared field of what it prints; negative literal text is '(not '+positive+')'; "
           "written keywords are reader heads; templates are balanced; signatures are printed in order; print options reach nested prints (known "
-          "finding: they do not) and print() emits what __str__ emits; every constant except the placeholder named 'object' is written; integers are printed by an exact integer test. Equality after re-parsing is not decided.",
+          "finding: they do not) and print() emits what __str__ emits; every constant except the placeholder named 'object' is written; integers are printed by an exact integer test. Equality after re-parsing is not decided. Every printer path returns text, every non-empty collection of the domain reaches the text for sizes 1 and >= 2, tree printers keep (op left right) / (left op right), lift fluent leaves and never truncate non-integers; with should_simplify=False nothing passes the simplifier.",
           TRUST + "Three known findings (KF9).", "DESIGN.md 4/C08")
     claim("C09",
           "backward slicing for field coverage, template keywords / balance, provenance of the (:domain ..) reference",
           "Decides: the problem text depends on every field of Problem named by the property, object / fact / fluent lines on all their parts, "
-          "keywords are parse_problem heads, templates are balanced, every alternative of an object line is '<name> - <type>'. Round-trip equality is not decided.",
+          "keywords are parse_problem heads, templates are balanced, every alternative of an object line is '<name> - <type>'. Round-trip equality is not decided. Every section writer path depends on each collection it was given unless that collection is empty; repeated and single arguments of a fluent line are printed as often as they occur.",
           TRUST + "One known finding (position of repeated fluent arguments, KF1).", "DESIGN.md 4/C09")
     claim("C10",
           "keyword-set agreement writer/reader, sibling obligation cross-check, def-use threading in parse_trajectory, no-silent-drop",
           "Decides: writers' section keywords equal the reader's heads; the trajectory fluent reader discharges the obligations of the problem "
           "parser's (arity, types when known, repeated-argument bookkeeping); components are chained (pre-state = initial or copy of previous "
-          "post-state), one per operator line, malformed alternation raises; exporter layout. State equality after the round trip is not decided.",
+          "post-state), one per operator line, malformed alternation raises; exporter layout. State equality after the round trip is not decided. Per element kind the state reader stores on every path of a turn and hands facts / fluents to the right State field; the fluent and atom readers accept well-formed input in both modes, take name and arguments from the right tokens, pair types in the right direction; joint actions keep every entry; section readers get item[1:].",
           TRUST, "DESIGN.md 4/C10")
     claim("C11",
           "def-use chain from text to tokens, regex-AST of the comment pattern, finite valuation of the recursive reader",
           "Decides: no separator is deleted, lower(), parentheses padded, whitespace split, ';' comments cut before tokenising, both input modes "
           "feed tokenize(); the reader raises on empty input and stray ')', collects sub-forms to the matching ')' and returns atoms unchanged. The "
-          "missing end-of-input check is reported as a known finding.",
+          "missing end-of-input check is reported as a known finding. Both input modes are accepted, the line walk is not left early, every element added to the stream is one token.",
           TRUST, "DESIGN.md 4/C11")
     claim("C12",
           "abstract evaluation of operator-table lambdas over a 5-point ordering domain, rational normal forms, def-use provenance for operand order",
           "Decides for every input at once: the arithmetic table computes x<op>y, the comparison table is tolerant for = <= >= and strict for < >, "
           "the tolerance is the configured EPSILON with rel_tol pinned to 0, assign/increase/decrease set v / old+v / old-v, child 0 / child 1 are "
           "left / right operand at every evaluation, construction and printing site, environment values are converted to numbers, a fluent the state does not mention reads as the constant 0. Floating-point "
-          "results are not decided.",
+          "results are not decided. Per class of expression text construct_expression_tree builds the right node (literal = float(token), operator = head, operands = elements 1 and 2, fluent = fresh PDDLFunction over the written arguments); calculate and set_expression_value reach every leaf; evaluate_expression dispatches assignments and comparisons to their tables.",
           TRUST + "Abstract model of math.isclose: |x-y| <= abs_tol when rel_tol = 0.", "DESIGN.md 4/C12")
     claim("C13",
           "table vocabulary check, regex-AST injectivity argument for the symbol naming, guard/use consistency, exact-class dispatch coverage (thin claim)",
           "THIN: equivalence of sympy-simplified text for all valuations is out of reach of a static argument. Decided are necessary conditions only: "
           "emitted operators are + - * /, the fluent->symbol naming deletes no distinguishing characters, an integer printed under a round() guard is "
-          "int(round()) and the integer test is exact (no tolerance), the elimination algebra holds under every choice of its condition-dependent constants, the atom dispatch covers sympy's number classes, sides and operator of (in)equalities are kept.",
+          "int(round()) and the integer test is exact (no tolerance), the elimination algebra holds under every choice of its condition-dependent constants, the atom dispatch covers sympy's number classes, sides and operator of (in)equalities are kept. Structural clauses only: every path returns text, the outer parentheses of a comparison are cut once and each side is parsed from its own text, right-hand sides keep zeros, every condition reaches exactly one simplifier and its result the output, each sympy node kind reaches its own construct, the power expansion has exponent many factors, zero-dropping drops only values that round to 0.",
           TRUST + "Four known findings (KF7a-c) are reported on the current tree.", "DESIGN.md 4/C13 and section 8")
     claim("C14",
           "AST symmetry of __eq__ operands, finite valuation of its result, effect-analysis freshness of State.copy, constructor field maps, backward slicing",
           "Decides: __eq__ compares the same order-free view of facts and of fluents of both operands and returns their conjunction; State.copy "
           "returns fresh containers with fresh element objects and propagates is_init; element copies initialise every declared field from the "
-          "original; serialize depends on both fields and is_init and prints the views __eq__ compares. Injectivity of serialisation is not decided.",
+          "original; serialize depends on both fields and is_init and prints the views __eq__ compares. Injectivity of serialisation is not decided. Copy hands each container to the same-named field and keeps polarity.",
           TRUST, "DESIGN.md 4/C14")
     claim("C15",
           "guard-structure analysis of the packing loop, finite valuation of the validator, provenance-labelled interference pairs (thin claim)",
           "THIN: conservation, per-agent order and final-state equality over all plans are not decided. Decided: every slot store after the first is "
           "under the well-definedness test; the validator accepts only with a free slot, applicability in the step's pre-state and no interference "
           "(six required intersections present, over whole parameter lists and whole effect groups); one JointActionCall per step from nop-initialised slots indexed by agent; state threading through "
-          "apply_actions on the non-nop members.",
+          "apply_actions on the non-nop members. The remaining plan only shrinks: no return with actions left and no head read of an empty plan; a nop slot does not end the member walk; the regex scans the plan text.",
           TRUST, "DESIGN.md 4/C15 and section 8")
     claim("C16",
           "finite guard valuation of apply_actions, def-use provenance of the accumulated state, loop threading, constructor-argument rule",
           "Decides: member applicability is asked on the original state, effects accumulate on its copy, refusal iff (inapplicable and not allowed), "
           "nop skipped before the schema lookup, the single-member shortcut passes the flag; the multi-agent exporter threads states with one "
-          "triplet per joint action, built by one apply_actions call on the previous state and the whole member list; every applied Operator is built with the problem objects. Permutation independence is not decided.",
+          "triplet per joint action, built by one apply_actions call on the previous state and the whole member list; every applied Operator is built with the problem objects. Permutation independence is not decided. The allow flag defaults to False everywhere; the single-member shortcut is taken for exactly one member and applies it; every applied Operator is built from its own member; parse_action_call collects every group as (token 0, tokens 1..); the triplet records a NOPOperator per nop and the member's operator otherwise.",
           TRUST, "DESIGN.md 4/C16")
     claim("C17",
           "effect analysis (writes to module-level objects), def-use provenance of merge calls (same-named fields), finite valuation of the de-duplication guard",
           "Decides: combining never writes into shared module-level state; each mergeable field of the combined domain / problem is fed from the "
           "same-named field of every agent file into a fresh object; facts are inserted iff their ground text is absent, goal literals pass a set, the walk over an agent's facts is never left early; "
-          "the exporter writes every constant; dummy actions only on request. Order independence for conflicting values is not decided.",
+          "the exporter writes every constant; dummy actions only on request. Order independence for conflicting values is not decided. The combination's name is merged, agent files are parsed completely, a predicate used by an added dummy action is declared.",
           TRUST, "DESIGN.md 4/C17")
     claim("C18",
           "container mutate-while-iterate pattern over the CFG (simultaneous substitution), backward slice of visited fields, provenance of rebuilt pairs",
           "Decides: every change_signature builds the renamed signature from a snapshot in the old order with the old types (so overlapping maps "
           "such as swaps are safe) and no path returns before the rewrite; (in)equality pairs are rebuilt component-wise; Action.change_signature visits every field that mentions "
-          "parameters (known finding: conditional / universal effects and nested pairs are not). Behavioural equivalence is not decided.",
+          "parameters (known finding: conditional / universal effects and nested pairs are not). Behavioural equivalence is not decided. Class tests have the operand first.",
           TRUST + "Three known findings (KF8).", "DESIGN.md 4/C18")
     claim("C19",
           "regex-AST analysis of the step pattern, def-use provenance of emitted steps, finite valuation of the status function",
           "Decides: nothing inside the step capture group can match a line break and the step ends at its line's end, the step number is not anchored to the line start, the captured class admits every character of action names; steps are "
           "group(1).lower().strip() in match order; 'ok' only under the plan marker, otherwise an empty list; ENHSP: one lower-cased line per input "
-          "line. That real logs contain nothing else matching the pattern is an assumption.",
+          "line. That real logs contain nothing else matching the pattern is an assumption. Non-empty step lists are returned and written, both plan-less classes are reachable and decided by the unsolvability markers, regex calls have (pattern, log) in that order.",
           TRUST, "DESIGN.md 4/C19")
     claim("C20",
           "def-use provenance of the parameter map and of per-position lookups, finite valuation over 'is a domain constant', loop completeness",
           "Decides: parameter map = zip(signature, call arguments) in order; declared parameter i is bound through the literal's i-th argument; "
           "constants keep name and own type, parameters take the action's type; effect groups ground all their effects (discrete and numeric on every path), one group per schema group; "
           "the precondition translation attaches every operand class (known finding: nested / forall are dropped). Set equality with the substituted "
-          "schema is not decided.",
+          "schema is not decided. The literal's typed signature gets the constant's own type / the action's parameter type; per kind of numeric node the grounded node is a new node with the right value and operands in order.",
           TRUST + "Five known findings (KF1, KF2, KF4).", "DESIGN.md 4/C20")
